@@ -138,3 +138,114 @@ def shrink(prog, still_fails, max_rounds=200):
             except Exception:
                 continue
     return best
+
+
+# ---------------------------------------------------------------------------------------------
+# real-world sources shipped with the repository (test cases, examples, mod scripts + libraries)
+# ---------------------------------------------------------------------------------------------
+
+def repo_sources():
+    """[(name, src or {"": src, lib: src…})] read from /repo's working tree"""
+    import re
+    from .common import REPO
+    out = []
+    for f in sorted((REPO / "test" / "cases").glob("*.py")):
+        out.append(("case:" + f.stem, f.read_text(encoding="utf-8")))
+    for f in sorted((REPO / "src" / "stationeers_pytrapic" / "examples").glob("*.py")):
+        if "__init__" in f.name:
+            continue
+        out.append(("example:" + f.stem, f.read_text(encoding="utf-8")))
+    libdir = REPO / "test" / "mod_libraries"
+    for f in sorted((REPO / "test" / "mod_scripts").glob("*.py")):
+        src = f.read_text(encoding="utf-8")
+        mods = {"": src}
+        for m in re.finditer(r"^from library import (.+)$", src, flags=re.M):
+            for part in m.group(1).split(","):
+                name = part.strip().split(" as ")[0].strip()
+                lf = libdir / (name + ".py")
+                if lf.exists():
+                    mods[name] = lf.read_text(encoding="utf-8")
+        out.append(("script:" + f.stem, mods))
+    return out
+
+
+def compile_any(src, opts: dict):
+    """compile a str or a module dict with the real transpiler"""
+    from stationeers_pytrapic import compiler as C
+    return C.compile_code(dict(src) if isinstance(src, dict) else src, C.CompileOptions(**opts))
+
+
+# ---------------------------------------------------------------------------------------------
+# capture of the register allocator's input and output (harness-side wrapper, no change to /repo)
+# ---------------------------------------------------------------------------------------------
+
+class Capture:
+    """what `assign_registers` saw and produced in one compilation"""
+
+    def __init__(self):
+        self.lines = []        # [{"op":…, "out": virt|None, "ins":[("r", virt)|("k", text)], "owner": fname}]
+        self.symbols = []      # [{"scope":…, "name":…, "virt":…, "start":…, "stop":…, "tmp": bool, "phys": …}]
+        self.scopes = []       # function scope names in data.functions
+        self.modules = []
+        self.called_from = {}
+        self.used = None       # return value of assign_registers
+        self.error = None
+
+
+def compile_captured(src, opts: dict):
+    """compile with the real transpiler, recording the allocator's view. Returns (result, Capture)"""
+    from stationeers_pytrapic import compiler as C, generate_code as G, register_assignment as RA
+    from stationeers_pytrapic.types import IC10Register
+    cap = Capture()
+    orig = G.assign_registers
+
+    def wrapper(data, code):
+        owner = {}
+        for fname, func in data.functions.items():
+            for line in func.code:
+                owner[id(line)] = fname
+        def opnd(inp):
+            v = inp.value
+            if isinstance(v, IC10Register):
+                return ["r", str(v.code_expr)]
+            try:
+                return ["k", inp.to_string()]
+            except Exception as e:  # pragma: no cover
+                return ["k", "<%s>" % type(e).__name__]
+        for line in code:
+            out = None
+            if line.output is not None and line.output != "":
+                out = str(getattr(line.output, "code_expr", line.output))
+            cap.lines.append({"op": line.op, "out": out, "ins": [opnd(i) for i in line.inputs], "owner": owner.get(id(line), "?"),
+                              "lineno": getattr(line.node, "lineno", None) if line.node is not None else None})
+        syms = []
+        for scope, table in data.symbols.items():
+            for key, sym in table.items():
+                if sym.is_register:
+                    try:
+                        lt = sym.lifetime
+                        start, stop = lt.start, lt.stop
+                    except Exception:
+                        start, stop = None, None
+                    syms.append((sym, {"scope": scope, "name": str(key), "virt": str(sym.code_expr), "start": start, "stop": min(stop, 10**9) if stop is not None else None,
+                                       "tmp": bool(sym._is_intermediate)}))
+        cap.scopes = sorted(data.functions.keys())
+        cap.modules = sorted(data.modules.keys())
+        try:
+            cap.used = orig(data, code)
+        except Exception as e:
+            cap.error = f"{type(e).__name__}: {e}"
+            raise
+        finally:
+            for sym, d in syms:
+                d["phys"] = str(sym.code_expr)
+                d["color"] = sym._color
+                cap.symbols.append(d)
+        return cap.used
+
+    G.assign_registers = wrapper
+    try:
+        res = C.compile_code(dict(src) if isinstance(src, dict) else src, C.CompileOptions(**opts))
+    finally:
+        G.assign_registers = orig
+    return res, cap
